@@ -1,34 +1,78 @@
 ---------------------------- MODULE Connect_Trace ----------------------------
 (* Validation of recorded connect phases (harness/fv/connect_run.py):       *)
-(* ev[i] = [c, st, inX, inD, outP, outX, outD, pubs, tok] after every       *)
+(* ev[i] = [c, st, inX, inD, outP, outX, outD, pubs, sup, pvals, tok] after every *)
 (* Component.connect call; end = [out, unconnected, meta]                   *)
 EXTENDS ConnectOps, Json, IOUtils, TLC
 Traces == ndJsonDeserialize(IOEnv.TRACE_FILE)
-VARIABLES tid, i, s, verdict
-vars == <<tid, i, s, verdict>>
+VARIABLES tid, i, s, ob, verdict
+vars == <<tid, i, s, ob, verdict>>
 Tr == Traces[tid]
 Fail(c, k) == c \o "@" \o ToString(k)
 
-EvVerdict(cfg, st, e, k) ==
+(* Property-level clauses are evaluated on what was observed (o: the flags recorded after the *)
+(* previous call of each component), not on the per-call schedule of the reference model:    *)
+(* C06 does not say in which call an exchange has to happen.  With FV_STRICT=1 every call is *)
+(* additionally compared with ConnectOps.Call (s), the order of attempts of the pinned       *)
+(* ConnectHelper.connect.                                                                    *)
+Strict == "FV_STRICT" \in DOMAIN IOEnv /\ IOEnv.FV_STRICT = "1"
+Flags(e) == <<e.inX, e.inD, e.outP, e.outX, e.outD>>
+O0(cfg) == [st |-> [c \in Comps(cfg) |-> "init"],
+            fl |-> [c \in Comps(cfg) |-> <<FALSE, FALSE, cfg.comps[c].hasout /\ cfg.comps[c].outown, FALSE, FALSE>>],
+            dv |-> [c \in Comps(cfg) |-> "none"],      \* the initial data the component supplied last
+            pv |-> [c \in Comps(cfg) |-> -1]]          \* the value it published
+ObsItems(cfg, o) == {<<c, f>> \in Items(cfg) :
+                       o.fl[c][CASE f = "inX" -> 1 [] f = "inD" -> 2 [] f = "outP" -> 3 [] f = "outX" -> 4 [] f = "outD" -> 5]}
+CompleteObs(cfg, fl, c) ==
+  LET k == cfg.comps[c] IN
+  /\ k.hasin => fl[1]
+  /\ (k.hasin /\ k.pull) => fl[2]
+  /\ k.hasout => (fl[3] /\ fl[4] /\ fl[5])
+SupTok(cfg, p, v) == 1000 * p + cfg.comps[p].off + (IF v = "guess" THEN 500 ELSE 0)
+
+ObsVerdict(cfg, o, e, k) ==
+  LET c == e.c
+      kk == cfg.comps[c]
+      old == o.fl[c]
+      new == Flags(e)
+      o2 == [o EXCEPT !.fl[c] = new, !.st[c] = e.st]
+      F == ObsItems(cfg, o2)
+      names == <<"inX", "inD", "outP", "outX", "outD">>
+      dv2 == IF e.sup # "none" THEN e.sup ELSE o.dv[c]
+  IN IF o.st[c] = "connected" THEN Fail("call-of-connected", k)
+     ELSE IF ~(e.st \in {"connecting", "idle", "connected"}) THEN Fail("connect-status", k)
+     ELSE IF \E j \in 1..5 : old[j] /\ ~new[j] THEN Fail("exchange-undone", k)
+     ELSE IF e.st = "connected" /\ ~CompleteObs(cfg, new, c) THEN Fail("connected-only-when-complete", k)
+     \* progress is reported exactly when something new was exchanged (not asserted for the first call)
+     ELSE IF o.st[c] # "init" /\ e.st = "idle" /\ new # old THEN Fail("progress-iff-new", k)
+     ELSE IF o.st[c] # "init" /\ e.st = "connecting" /\ new = old THEN Fail("progress-iff-new", k)
+     \* nothing is exchanged before what it depends on
+     ELSE IF \E j \in 1..5 : new[j] /\ ~old[j] /\ ~Derivable(cfg, F, <<c, names[j]>>) THEN Fail("exchange-before-dependency", k)
+     \* initial data: published for the composition start and the own start when later, and only then
+     ELSE IF kk.hasout /\ Targets(cfg, c) # {} /\ e.pubs # (IF new[5] THEN InitialPubs(kk) ELSE <<>>) THEN Fail("double-initial-push", k)
+     \* what is published is what the component supplied last (a value supplied again replaces the earlier one)
+     ELSE IF new[5] /\ ~old[5] /\ (dv2 = "none" \/ \E x \in 1..Len(e.pvals) : e.pvals[x] # SupTok(cfg, c, dv2)) THEN Fail("initial-data-value", k)
+     \* an initial pull delivers what the producer published
+     ELSE IF new[2] /\ ~old[2] /\ e.tok # o.pv[kk.src] THEN Fail("initial-pull-value", k)
+     ELSE "ok"
+
+EvVerdict(cfg, st, o, e, k) ==
   LET c == e.c
       r == Call(cfg, st, c)
       n == r.s
       kk == cfg.comps[c]
-  IN IF st.st[c] = "connected" THEN Fail("call-of-connected", k)
-     ELSE IF e.st = "connected" /\ ~Complete(cfg, n, c) THEN Fail("connected-only-when-complete", k)
-     ELSE IF e.st # n.st[c] /\ e.st \in {"connecting", "idle"} /\ n.st[c] \in {"connecting", "idle"}
-          THEN Fail("progress-iff-new", k)
+      ov == ObsVerdict(cfg, o, e, k)
+  IN IF ov # "ok" THEN ov
+     ELSE IF ~Strict THEN "ok"
      ELSE IF e.st # n.st[c] THEN Fail("connect-status", k)
-     ELSE IF <<e.inX, e.inD, e.outP, e.outX, e.outD>> # <<n.inX[c], n.inD[c], n.outP[c] /\ kk.hasout, n.outX[c], n.outD[c]>>
-          THEN Fail("connect-fixpoint", k)
-     ELSE IF kk.hasout /\ Targets(cfg, c) # {} /\ e.pubs # n.pubs[c] THEN Fail("double-initial-push", k)
+     ELSE IF Flags(e) # <<n.inX[c], n.inD[c], n.outP[c] /\ kk.hasout, n.outX[c], n.outD[c]>> THEN Fail("connect-fixpoint", k)
      ELSE IF n.inD[c] /\ ~st.inD[c] /\ e.tok # InitTok(cfg, n, kk.src) THEN Fail("initial-pull-value", k)
      ELSE "ok"
 
-EndVerdict(cfg, st, en, k) ==
-  LET open == {c \in Comps(cfg) : st.st[c] # "connected"} IN
+EndVerdict(cfg, o, en, k) ==
+  LET open == {c \in Comps(cfg) : o.st[c] # "connected"} IN
   IF en.out = "ok" THEN
      (IF ~(open = {} /\ StuckSet(cfg) = {}) THEN Fail("connect-outcome", k)
+      ELSE IF \E c \in Comps(cfg) : ~CompleteObs(cfg, o.fl[c], c) THEN Fail("connected-only-when-complete", k)
       \* en.meta[c] = [inm, outm]: markers found in the exchanged infos of the slots afterwards
       ELSE IF \E c \in Comps(cfg) : cfg.comps[c].hasout /\ en.meta[c].outm # OutM(cfg, c, Fuel(cfg)) THEN Fail("metadata-provenance", k)
       ELSE IF \E c \in Comps(cfg) : cfg.comps[c].hasin /\ en.meta[c].inm # InM(cfg, c, Fuel(cfg)) THEN Fail("metadata-provenance", k)
@@ -36,18 +80,23 @@ EndVerdict(cfg, st, en, k) ==
   ELSE IF en.out = "stall" THEN
      (IF StuckSet(cfg) = {} THEN Fail("false-stall", k)
       ELSE IF {en.unconnected[x] : x \in 1..Len(en.unconnected)} # StuckSet(cfg) THEN Fail("stall-set", k)
+      ELSE IF open # StuckSet(cfg) THEN Fail("stall-set", k)
       ELSE "ok")
   ELSE Fail("connect-error", k)
 
-Init == tid \in 1..Len(Traces) /\ i = 1 /\ s = S0(Traces[tid].cfg) /\ verdict = "ok"
+Init == tid \in 1..Len(Traces) /\ i = 1 /\ s = S0(Traces[tid].cfg) /\ ob = O0(Traces[tid].cfg) /\ verdict = "ok"
 Next ==
   /\ i <= Len(Tr.ev) + 1
   /\ i' = i + 1 /\ UNCHANGED tid
-  /\ IF verdict # "ok" THEN UNCHANGED <<s, verdict>>
+  /\ IF verdict # "ok" THEN UNCHANGED <<s, ob, verdict>>
      ELSE IF i <= Len(Tr.ev) THEN
-          /\ verdict' = EvVerdict(Tr.cfg, s, Tr.ev[i], i)
+          /\ verdict' = EvVerdict(Tr.cfg, s, ob, Tr.ev[i], i)
           /\ s' = Call(Tr.cfg, s, Tr.ev[i].c).s
-     ELSE /\ verdict' = EndVerdict(Tr.cfg, s, Tr.end, i) /\ s' = s
+          /\ ob' = LET e == Tr.ev[i] IN
+                    [ob EXCEPT !.fl[e.c] = Flags(e), !.st[e.c] = e.st,
+                               !.dv[e.c] = IF e.sup # "none" THEN e.sup ELSE @,
+                               !.pv[e.c] = IF e.pvals # <<>> THEN e.pvals[1] ELSE @]
+     ELSE /\ verdict' = EndVerdict(Tr.cfg, ob, Tr.end, i) /\ s' = s /\ ob' = ob
 Spec == Init /\ [][Next]_vars
 Done == i = Len(Tr.ev) + 2
 Collect == Done => IF verdict = "ok" THEN TLCSet(3, TLCGet(3) + 1)
